@@ -35,6 +35,14 @@ func (o *c19Origin) start() error {
 	idx := o.idx
 	o.srv = &http.Server{Handler: http.HandlerFunc(func(w http.ResponseWriter, r *http.Request) {
 		w.Header().Set("Cache-Control", "no-cache")
+		if r.URL.Path == "/crash" { // one broken exchange: the connection is dropped without an answer; the server stays up
+			if hj, ok := w.(http.Hijacker); ok {
+				if conn, _, err := hj.Hijack(); err == nil {
+					conn.Close()
+					return
+				}
+			}
+		}
 		if o.sick {
 			w.WriteHeader(500)
 			fmt.Fprintf(w, "sick-%d", idx)
@@ -69,10 +77,13 @@ type c19Sys struct {
 	mask    int
 }
 
-func (s *c19Sys) NumEvents() int { return 3*s.n + 1 }
+func (s *c19Sys) NumEvents() int { return 3*s.n + 2 }
 func (s *c19Sys) Enabled(ev int) bool {
 	if ev == 3*s.n {
 		return s.reloads
+	}
+	if ev == 3*s.n+1 {
+		return s.reloads || s.n == 1 // (same configurations as the reload events, plus every single-server one)
 	}
 	if ev >= s.n && ev < 2*s.n {
 		return s.ping != "" && s.origins[ev-s.n].up // HTTP-level sickness is only observable by an HTTP health check
@@ -86,6 +97,8 @@ func (s *c19Sys) EventName(ev int) string {
 	switch {
 	case ev == 3*s.n:
 		return "reload the unchanged configuration"
+	case ev == 3*s.n+1:
+		return "one request whose connection the origin drops without answering (the server stays up)"
 	case ev < s.n:
 		return fmt.Sprintf("toggle server %d up/down", ev)
 	case ev < 2*s.n:
@@ -155,7 +168,11 @@ func (s *c19Sys) Key() string {
 }
 
 func (s *c19Sys) Apply(ev int) (string, string, string) {
-	if ev == 3*s.n {
+	if ev == 3*s.n+1 {
+		// a single failed exchange says nothing about the server's health: the checks still pass
+		s.e.Do(env.Req{Method: "POST", URI: "/crash", Rid: "crash"})
+		s.e.Events()
+	} else if ev == 3*s.n {
 		// what a save of any unrelated setting does: the same configuration applied again
 		if err := env.Apply(s.cfg); err != nil {
 			return "", "apply-error", err.Error()
@@ -194,7 +211,9 @@ func (s *c19Sys) Apply(ev int) (string, string, string) {
 		}
 	}
 	u := upstream.Get("u")
-	u.HTTPUpstream.DoHealthCheck() // settle
+	if ev != 3*s.n+1 {
+		u.HTTPUpstream.DoHealthCheck() // settle (not after the dropped connection: the next requests follow at once)
+	}
 	// eligible servers
 	var prim, back []int
 	for i, og := range s.origins {
